@@ -12,6 +12,8 @@ use std::io::BufRead;
 
 mod util;
 mod c09;
+mod circuits;
+mod c05;
 
 fn main() {
     let args: Vec<String> = std::env::args().skip(1).collect();
@@ -29,6 +31,7 @@ fn main() {
         ("c09", "replay") => c09::replay(stdin_lines()),
         ("c09", "params") => c09::params(),
         ("c09", "record") => c09::record(rest),
+        ("c05", "replay") => c05::replay(stdin_lines()),
         (p, m) => {
             eprintln!("unknown property/mode {p} {m}");
             std::process::exit(2);
